@@ -28,7 +28,7 @@ theorem intersectTriangle_eq {α : Type} [Num α] (ray : Ray α) (vertex0 vertex
        let h := ray.direction.cross edge2
        let a := edge1.dot h
        let tiny : α := tiny100
-       if a >. -tiny && a <. tiny then none else
+       if Num.abs a <=. tiny * edge1.length * h.length then none else
        let f : α := 1 / a
        let s := ray.origin - vertex0
        let u := f * (s.dot h)
@@ -65,7 +65,12 @@ theorem mt_sound {ray : Ray ℝ} {v0 v1 v2 p : V3 ℝ} {u v : ℝ}
   have hane : a ≠ 0 := by
     intro h0
     rw [h0] at h1
-    exact absurd (h1 (by linarith)) (by linarith)
+    have hL1 : 0 ≤ (v1 - v0).length := by simp only [V3.length, real_sqrt]; exact Real.sqrt_nonneg _
+    have hL2 : 0 ≤ (ray.direction.cross (v2 - v0)).length := by simp only [V3.length, real_sqrt]; exact Real.sqrt_nonneg _
+    have : 0 ≤ tiny * (v1 - v0).length * (ray.direction.cross (v2 - v0)).length :=
+      mul_nonneg (mul_nonneg tp.le hL1) hL2
+    simp only [abs_zero] at h1
+    linarith
   have h2' : 0 ≤ 1 / a * su ∧ 1 / a * su ≤ 1 := by
     by_contra hc
     exact h2 (fun h0 => by by_contra h1'; exact hc ⟨h0, not_lt.1 h1'⟩)
